@@ -33,10 +33,21 @@ def sweep_impl(rep, tier, seed):
             # ---- read_block by first-channel frequency
             if foff < 0:
                 for k in range(nchans):
-                    for nc in (1, 3, nchans - k):
-                        if k + nc > nchans:
-                            continue
+                    for nc in (1, 3, nchans - k, nchans - k + 1, nchans):
                         f = float(freqs[k])
+                        if k + nc > nchans:
+                            # a channel range that leaves the band: either refused, or the header describes what is returned
+                            rep.case(("read_block_fch1_overrun", foff, k, nc))
+                            try:
+                                blk = fil.read_block(3, 7, fch1=f, nchans=nc)
+                            except ValueError:
+                                continue
+                            rep.check(blk.header.nchans == blk.data.shape[0],
+                                      "read_block(fch1, nchans) past the last channel: header nchans differs from the rows returned",
+                                      function="readers.py::FilReader.read_block",
+                                      input=dict(fch1=fch1, foff=foff, k=k, request_fch1=f, nchans=nc),
+                                      observed=dict(header_nchans=blk.header.nchans, rows=int(blk.data.shape[0])))
+                            continue
                         inp = dict(fch1=fch1, foff=foff, k=k, request_fch1=f, nchans=nc)
                         rep.case(("read_block_fch1", foff, k, nc))
                         try:
@@ -150,6 +161,12 @@ def sweep_impl(rep, tier, seed):
                     ts = b2.get_tim()
                     rep.check(ts.header.nsamples == ts.data.size and ts.header.nchans == 1 and close(ts.header.dm, 20.0), "get_tim header (nsamples, nchans, dm)",
                               function="block.py::FilterbankBlock.get_tim", input=dict(valid=valid), observed=dict(dm=ts.header.dm, nchans=ts.header.nchans))
+                    # the applied DM is still recorded after decimating the dedispersed block
+                    b3 = b2.downsample(ffactor=2, tfactor=2 if b2.header.nsamples >= 4 else 1)
+                    rep.check(close(b3.dm, 20.0) and close(b3.get_tim().header.dm, 20.0),
+                              "dedisperse(dm).downsample(): the block no longer records the DM that was applied",
+                              function="block.py::FilterbankBlock.downsample", input=dict(valid=valid, dm=20.0),
+                              observed=dict(dm=float(b3.dm), tim_dm=float(b3.get_tim().header.dm)), required=20.0)
             ts = fil.collapse(quiet=True)
             for fac in (2, 3, 7):
                 rep.case(("ts.downsample", fac))
